@@ -41,6 +41,11 @@ def run(rep, tier, seed):
                 rules.append(m)
             if rnd.random() < 0.5:
                 rules.insert(rnd.randrange(len(rules) + 1), no_compression_rule(randbits(rnd, 4)))
+            if rnd.random() < 0.3:
+                from microschc.rfc8724 import RuleNature
+                frag = gen_rule(rnd, pd, randbits(rnd, 5), kinds=('vs',))
+                frag.nature = RuleNature.FRAGMENTATION          # neither compression nor no-compression: never offered
+                rules.append(frag)
             rnd.shuffle(rules)
             case_match(b, pd, rules, klass='match:' + stack)
     # right-padded field values and patterns (synthetic descriptors)
@@ -51,7 +56,20 @@ def run(rep, tier, seed):
         for f in pd.fields:
             f.value = mk(bits_of(f.value), side)
         muts = [rule] + [mutate_rule(rnd, rule, pd)[0] for _ in range(3)]
-        case_match(b, pd, muts, klass='match:synthetic-%s' % ('L' if side == L else 'R'))
+        from microschc.ruler.ruler import Ruler
+        shared = Ruler(muts)
+        case_match(b, pd, muts, klass='match:synthetic-%s' % ('L' if side == L else 'R'), ruler=shared)
+        # the same bits cut at other field boundaries (same number of fields, same ids), matched by the SAME Ruler
+        if len(vals) >= 2:
+            j = rnd.randrange(len(vals) - 1)
+            a, c = vals[j], vals[j + 1]
+            if len(c) > 0:
+                k = rnd.randint(1, len(c))
+                vals2 = vals[:j] + [a + c[:k], c[k:]] + vals[j + 2:]
+                pd2 = synth_pdesc(rule, vals2, '')
+                for f in pd2.fields:
+                    f.value = mk(bits_of(f.value), side)
+                case_match(b, pd2, muts, klass='match:synthetic-other-boundaries', ruler=shared)
     b.run()
 
 
